@@ -179,7 +179,7 @@ package statf
 //@   ensures [C06] (ok1 && k2 == 2) ==> err != nil
 //@   ensures [C04] (ok3 && err == nil) ==> st.ExecCount == (k3 == 0 ? decIntV(src, q2, 2, d0) : old(st.ExecCount))
 //@   ensures [C06] (ok2 && k3 == 2) ==> err != nil
-//@   loop 0 invariant [C05] validR(readBuf) && readBuf.buf.i >= p0 && st != nil && st.IntervalCount != nil
+//@   loop 0 invariant [C05] validR(readBuf) && readBuf.buf.i >= p0 && st != nil && st.IntervalCount != nil && 0 <= i0
 //@   safety [C05]
 //
 //@ func (*StatMicMsgBody).ReadBlock
